@@ -570,7 +570,7 @@ class PyReader:
         if isinstance(n, (ast.ListComp, ast.GeneratorExp)) and len(n.generators) == 1:
             g = n.generators[0]
             it = self.ev(g.iter, env, fns)
-            if isinstance(it, str):
+            if isinstance(it, (str, dict)):
                 it = list(it)
             if not isinstance(it, list):
                 self.fail(g.iter, "comprehension over a non-concrete sequence")
